@@ -117,7 +117,7 @@ func scopesC06(thorough bool) []Scope {
 		{Name: "L-half-2", GS: synthGS(0, 2, [2]int64{7, 7}), Spec: lat.Spec{Points: lat.Window(2, 2, 2), MaxK: k(4, 5), Valid: true}, IDSets: one, Cfgs: cfgs},
 		{Name: "L-holes-2", GS: synthGS(0, 2, [2]int64{7, 7}), Spec: lat.Spec{Points: lat.Window(2, 2, 2), MaxK: k(3, 4), Valid: true, MaxHoles: 1, HoleMaxK: 3}, IDSets: one, Cfgs: cfgs},
 	}
-	scs = append(scs, kmpScope(thorough), shellWalkScope(k(8, 10)))
+	scs = append(scs, kmpScope(thorough), shellWalkScope(k(8, 10)), holeWalkOnShellScope(k(8, 10)))
 	for _, f := range familyScopes(thorough) {
 		scs = append(scs, f)
 	}
